@@ -182,10 +182,12 @@ def run(case):
                              paired=rng.random() < 0.5, error_rate=rng.choice([0, 0, 0.003]))
         # a profile *file* carrying its own options (values the archive has to carry too, including falsy ones);
         # the reads of one planted copy then have mapping quality 5 so that `min_mapq: 0` matters
+        # features are assigned by case number so that every tier drives each of them several times
+        feature = {1: "cli_min_avg", 2: "opts_mapq", 3: "opts_min_avg"}.get(case["k"] % 6)
         popts = None
-        if rng.random() < 0.3:
+        if rng.random() < 0.3 or feature in ("opts_mapq", "opts_min_avg"):
             popts = {}
-            if rng.random() < 0.7:
+            if rng.random() < 0.7 or feature == "opts_mapq":
                 popts["min_mapq"] = 0
                 for r_ in rds:
                     if r_.get("hap") == 0:
@@ -196,7 +198,7 @@ def run(case):
                 popts["min_quality"] = 0
             if rng.random() < 0.3:
                 popts["max_minor_solutions"] = 2
-            if rng.random() < 0.25:
+            if rng.random() < 0.25 or feature == "opts_min_avg":
                 popts["min_avg_coverage"] = rng.choice([60, 100])
             if rng.random() < 0.25:
                 popts["display_format"] = True
@@ -228,7 +230,9 @@ def run(case):
             params += ["--param", "phase=false"]
         if rng.random() < 0.2:
             params += ["--param", "display_format=true"]
-        if rng.random() < 0.25:
+        if feature == "cli_min_avg":
+            params += ["--param", f"min_avg_coverage={rng.choice([60, 100])}"]
+        elif rng.random() < 0.25:
             # also minimum depths above the sample's own (about 40x): both runs must then refuse the gene
             params += ["--param", f"min_avg_coverage={rng.choice([5, 5, 60, 100])}"]
         if rng.random() < 0.15:
